@@ -27,7 +27,7 @@ prop( 'C05', [ 'S-STATUS', 'D-VALIDATE', 'W-ATTR', 'T-ALLOWED', 'T-TYPENAMES', '
       not_decided='that values read back equal the converted values written (value/history dependent).',
       technique='constant typestate on a statement CFG with exception edges; dominance / must-pass-through with correlated branches; service feasibility by test folding; table interval containment' )
 
-prop( 'C12', [ 'T-CLIENT-TYPES', 'P-BUNDLE', 'P-FRESH', 'T-PATHSYNTAX', 'S-COMPLETE', 'T-OPOFFSET', 'T-PATHDEFAULTS', 'F-CLIENT', 'T-OPVALUES', 'K-TIMEOUT', 'K-VALIDATE', 'T-ATTROPS', 'T-METHODS', 'W-STRIPSET', 'T-OPTYPE', 'W-ASSERT', 'K-REPLIES', 'T-OPTEXT', 'K-DETAILS', 'K-READVAL', 'T-FRAGTEXT', 'K-TARGETS', 'K-SEQUENCE', 'W-LATEBIND', 'T-PATHCOMP', 'T-BOOLTEXT' ],
+prop( 'C12', [ 'T-CLIENT-TYPES', 'P-BUNDLE', 'P-FRESH', 'T-PATHSYNTAX', 'S-COMPLETE', 'T-OPOFFSET', 'T-PATHDEFAULTS', 'F-CLIENT', 'T-OPVALUES', 'K-TIMEOUT', 'K-VALIDATE', 'T-ATTROPS', 'T-METHODS', 'W-STRIPSET', 'T-OPTYPE', 'W-ASSERT', 'K-REPLIES', 'T-OPTEXT', 'K-DETAILS', 'K-READVAL', 'T-FRAGTEXT', 'K-TARGETS', 'K-SEQUENCE', 'W-LATEBIND', 'T-PATHCOMP', 'T-BOOLTEXT', 'T-PATHELEMS' ],
       decides='T-OPVALUES: the effective options of the reader that splits a write\'s value list are comma separator, double-quote quoting and skipinitialspace (blank-padded lists mean the values they spell).  T-PATHSYNTAX also: format_path emits an element index at the component it follows (the symbolic branch flushes a pending index), so Foo[1].Boo formats and parses back to the same segments.  P-BUNDLE: in connector.issue the keep-collecting condition conjoins the size test with equality of both route_path and '
               'send_path with those of the bundle, every yielded record carries ( index, sender_context ) of its wire request, sender_context is '
               'always derived from index, and index advances at most once per operation and after every flushed bundle; T-PATHSYNTAX: every '
